@@ -1,6 +1,7 @@
 import PT.Lemmas.Inv
 import PT.Lemmas.Order
 import PT.Lemmas.Children
+import PT.Lemmas.ViewWrites
 /-!
 # Operation alphabet, reachable states, and facts about the fold-defined operations
 -/
@@ -65,7 +66,9 @@ theorem removeChildren_mem {m : PMap w V} (h : m.TreeWF) (q : Pfx w) (e : Pfx w 
 
 /-- the mutator alphabet covered by the invariant theorems (value-only writes are `modify`;
 `Entry::insert` = `insert`; `or_insert*`, `VacantEntry::insert*` = `orInsert`;
-`OccupiedEntry::remove` = `removeKeepTree`) -/
+`OccupiedEntry::remove` = `removeKeepTree`; `viewSet q cs x` / `viewRemove q cs` = `view_mut_at(q)`,
+`left()`/`right()` steps `cs`, then `TrieViewMut::set(x)` / `remove()` — a no-op when the view does not
+exist) -/
 inductive Op (w : Nat) (V : Type) where
   | insert (q : Pfx w) (x : V)
   | orInsert (q : Pfx w) (x : V)
@@ -76,6 +79,8 @@ inductive Op (w : Nat) (V : Type) where
   | retain (f : Pfx w → V → Bool) (stop : Option Nat)
   | clear
   | collect (xs : List (Pfx w × V))
+  | viewSet (q : Pfx w) (cs : List Bool) (x : V)
+  | viewRemove (q : Pfx w) (cs : List Bool)
 
 def Op.apply (m : PMap w V) : Op w V → PMap w V
   | .insert q x => (m.insert q x).1
@@ -87,6 +92,8 @@ def Op.apply (m : PMap w V) : Op w V → PMap w V
   | .retain f stop => m.retain f stop
   | .clear => m.clear
   | .collect xs => PMap.collect xs
+  | .viewSet q cs x => m.viewSetAt q cs x
+  | .viewRemove q cs => m.viewRemoveAt q cs
 
 /-- the state after a history -/
 def run (ops : List (Op w V)) (m : PMap w V) : PMap w V := ops.foldl Op.apply m
@@ -102,6 +109,8 @@ theorem apply_inv {m : PMap w V} (h : m.Inv) (op : Op w V) : (op.apply m).Inv :=
   | retain f stop => exact retain_inv h f stop
   | clear => exact clear_inv m
   | collect xs => exact collect_inv xs
+  | viewSet q cs x => exact viewSetAt_inv h q cs x
+  | viewRemove q cs => exact viewRemoveAt_inv h q cs
 
 /-- every state reachable from the empty map by any finite history satisfies the invariant -/
 theorem run_inv (ops : List (Op w V)) : (run ops (empty : PMap w V)).Inv := by
